@@ -32,6 +32,16 @@ def classify(c):
         # resolver answers (merged data, keep=True): both originals are renamed to .conflicted and the merged file is
         # created on both sides; the new files are seen as a fresh create/create conflict and the cycle repeats
         return "G4-merged-keep-never-quiesces"
+    if c["property"] == "C12":
+        allops = [op for _, op in ops]
+        if kind == "outside-modified":
+            # an object is moved out of the root on one side while the peer copy is edited/moved: the engine still
+            # addresses the moved-out object by id and uploads/renames it outside the root
+            return "G9-move-out-racing-peer-change-touches-outside"
+        if any(op[0] == "rename" and op[1] == "/other/sub" and not op[2].startswith("/") for op in allops):
+            # a non-empty folder moved into the root of an unfiltered id-style provider yields one event for the folder
+            # only: its children are never discovered
+            return "G8-folder-moved-in-children-not-discovered"
     if c["property"] == "C07":
         kinds = [op[0] for _, op in ops]
         paths = [op[1] for _, op in ops]
